@@ -202,6 +202,10 @@ pub fn print_verbose_tree<'value>(root: &EventRecord<'value>, writer: &mut Write
 // Err = the serde error that `?` propagates. ASSUMPTION: writing to the output does not fail (the real code panics there)
 #[verifier::external_body]
 pub fn verif_write_json<'value>(writer: &mut Writer, root: &EventRecord<'value>) -> (r: Result<()>) { unimplemented!() }
+
+// stands for #[derive(Debug)] of rules::errors::Error (needed by Result::unwrap in a fragment)
+#[verifier::external]
+impl std::fmt::Debug for Error { fn fmt(&self, _f: &mut std::fmt::Formatter<'_>) -> std::fmt::Result { Ok(()) } }
 // ---- raw prelude_structured.rs
 // hand-written prelude of the `structured` group (C06, structured validate path): report assembly and serialisation are
 // opaque; only the exit code fold of CommonStructuredReporter::report is decided.
